@@ -336,6 +336,9 @@ pub struct RestoreCase {
     pub color: u32,
     pub inner: Op,
     pub after: Op,
+    /// a transform set while the layer is open: pop_layer leaves that one in force, not the one at push time
+    #[serde(default)]
+    pub inner_xf: Option<Xf>,
 }
 
 pub fn check_restore(c: &RestoreCase) -> CheckResult {
@@ -351,18 +354,24 @@ pub fn check_restore(c: &RestoreCase) -> CheckResult {
         dt.clear(solid_of(c.color));
     } else {
         dt.push_layer(0.75);
+        if let Some(x2) = &c.inner_xf {
+            dt.set_transform(&to_transform(x2));
+        }
         apply(&mut dt, &c.inner);
         dt.pop_layer();
     }
+    // the transform pop_layer finds is the one set last, inside the layer or before it
+    let found = if c.kind == 0 { c.xf } else { c.inner_xf.unwrap_or(c.xf) };
+    let t = to_transform(&found);
     let now = from_transform(dt.get_transform());
-    if now.iter().zip(&c.xf).any(|(a, b)| a.to_bits() != b.to_bits()) {
-        return Err(format!("{} left the transform as {:?}, it was {:?}", if c.kind == 0 { "clear()" } else { "pop_layer()" }, now, c.xf));
+    if now.iter().zip(&found).any(|(a, b)| a.to_bits() != b.to_bits()) {
+        return Err(format!("{} left the transform as {:?}, it was {:?}", if c.kind == 0 { "clear()" } else { "pop_layer()" }, now, found));
     }
     // a draw afterwards equals the draw on a target where T was re-set explicitly
     let snapshot = dt.get_data().to_vec();
     apply(&mut dt, &c.after);
     let mut fresh = DrawTarget::from_vec(c.w, c.h, snapshot);
-    fresh.set_transform(&t);
+    fresh.set_transform(&to_transform(&c.xf));
     if let Some(cl) = &c.clip {
         apply(&mut fresh, cl);
     }
@@ -375,6 +384,7 @@ pub fn check_restore(c: &RestoreCase) -> CheckResult {
     o.nontrivial = !matches!(classify_xf(&c.xf), "xf:identity");
     o.class(if c.kind == 0 { "clear" } else { "pop_layer" });
     o.class_if(c.clip.is_some(), "clipped");
+    o.class_if(c.kind != 0 && c.inner_xf.is_some(), "transform-changed-inside-the-layer");
     Ok(o)
 }
 
@@ -385,9 +395,9 @@ fn restore_strategy(ctx: &Ctx) -> BoxedStrategy<RestoreCase> {
             let mut d = Domain::free(w, h);
             d.strokes = false;
             // paths in this part always start with move_to (the cursor carried between paths is C10's subject)
-            (Just((w, h)), init_pixels(w, h), prop_oneof![4 => xf_invertible(5.0), 1 => xf_singular()], prop::option::of(int_rect(w, h).prop_map(|(a, b, c, dd)| Op::PushClipRect(a, b, c, dd))), 0u8..2, px_premul(), draw_op(&ctx, &d), draw_op(&ctx, &d))
+            (Just((w, h)), init_pixels(w, h), prop_oneof![4 => xf_invertible(5.0), 1 => xf_singular()], prop::option::of(int_rect(w, h).prop_map(|(a, b, c, dd)| Op::PushClipRect(a, b, c, dd))), 0u8..2, px_premul(), draw_op(&ctx, &d), draw_op(&ctx, &d), prop::option::of(xf_invertible(5.0)))
         })
-        .prop_map(|((w, h), init, xf, clip, kind, color, inner, after)| RestoreCase { w, h, init, xf, clip, kind, color, inner, after })
+        .prop_map(|((w, h), init, xf, clip, kind, color, inner, after, inner_xf)| RestoreCase { w, h, init, xf, clip, kind, color, inner, after, inner_xf })
         .boxed()
 }
 
@@ -476,7 +486,7 @@ pub fn property(ctx: &Ctx) -> Property {
     let drift_open = ctx.excluded(super::c12::DRIFT_KEY);
     Property {
         id: "C11",
-        rule: "part fill: random polygon/curve paths, every source kind, 28 modes, all invertible transform classes: fill under T must equal, bit for bit, filling Path::transform(T) of the path under the identity with the source's transform preceded by T^-1 (sources live in user space); in half of the cases the source also carries an extra transform of its own, set directly in the public Source variant, so that every source kind (two-circle included) composes a non-trivial own transform with the CTM. part stroke: polylines stroked (all caps/joins/dashes) under a similarity must match stroking the transformed polyline with width, dashes and offset scaled (line width scales with T) up to one quarter-sample flip per edge. part image-under-near-identity-ctm: C13's images on 600..2048 px long surfaces under a current transform within 1e-3 of the identity (zoom 1.0004, half a milliradian of rotation, a slight shear), judged by C13's f64 oracle (a transform treated as 'close enough to a translation' drifts by whole texels there). part singular: every drawing call except mask/clear under non-invertible T changes nothing. part device: push_clip_rect (probed by an identity-transform fill), mask geometry with solid sources, copy_surface, blend_surface, blend_surface_with_alpha give identical pixels under any T. part restore: get_transform() is bit-equal after clear() and pop_layer (with/without clip) and a following draw equals the draw with T re-set. part rect: fill_rect (integer and fractional rectangles) and draw_image_at under any T, half of them translations with each axis zero / whole / fractional on its own, must equal, bit for bit, filling PathBuilder::rect of the same rectangle (with the translated image source) under the same T. parts gradient-under-ctm / image-under-ctm: C12's gradient cases and C13's image cases with a non-identity current transform (incl. mirrored, sheared and zoomed user spaces), colour judged absolutely at T^-1 of the pixel centre by those properties' oracles. Non-trivial: T not identity/integer translation (fill), scale away from 1 (stroke), non-identity T (device/restore); distinct by hash of the case.",
+        rule: "part fill: random polygon/curve paths, every source kind, 28 modes, all invertible transform classes: fill under T must equal, bit for bit, filling Path::transform(T) of the path under the identity with the source's transform preceded by T^-1 (sources live in user space); in half of the cases the source also carries an extra transform of its own, set directly in the public Source variant, so that every source kind (two-circle included) composes a non-trivial own transform with the CTM. part stroke: polylines stroked (all caps/joins/dashes) under a similarity must match stroking the transformed polyline with width, dashes and offset scaled (line width scales with T) up to one quarter-sample flip per edge. part image-under-near-identity-ctm: C13's images on 600..2048 px long surfaces under a current transform within 1e-3 of the identity (zoom 1.0004, half a milliradian of rotation, a slight shear), judged by C13's f64 oracle (a transform treated as 'close enough to a translation' drifts by whole texels there). part singular: every drawing call except mask/clear under non-invertible T changes nothing. part device: push_clip_rect (probed by an identity-transform fill), mask geometry with solid sources, copy_surface, blend_surface, blend_surface_with_alpha give identical pixels under any T. part restore: get_transform() is bit-equal after clear() and pop_layer (with/without clip; in half of the layer cases the transform is changed while the layer is open, and pop_layer must leave that one) and a following draw equals the draw with T re-set. part rect: fill_rect (integer and fractional rectangles) and draw_image_at under any T, half of them translations with each axis zero / whole / fractional on its own, must equal, bit for bit, filling PathBuilder::rect of the same rectangle (with the translated image source) under the same T. parts gradient-under-ctm / image-under-ctm: C12's gradient cases and C13's image cases with a non-identity current transform (incl. mirrored, sheared and zoomed user spaces), colour judged absolutely at T^-1 of the pixel centre by those properties' oracles. Non-trivial: T not identity/integer translation (fill), scale away from 1 (stroke), non-identity T (device/restore); distinct by hash of the case.",
         assumptions: vec![
             "mask() under a singular transform is not judged (the statement allows both readings)",
             "stroke part: the two sides differ by f32 rounding of positions, which the quarter-pixel vertex truncation can amplify to 1/4 px: alpha differences up to 80/255 (polylines) resp. 140/255 (curves, 0.2 px flattening difference) per pixel are accepted; a width that does not scale differs by 255 on whole bands",
@@ -497,7 +507,7 @@ pub fn property(ctx: &Ctx) -> Property {
             part("image-under-ctm", 20_000, 300_000, || super::c13::strategy().prop_filter("non-identity CTM", |c| c.ctm != IDENT).boxed(), super::c13::check),
             part("image-under-near-identity-ctm", 1_500, 30_000, || super::c13::near_identity_strategy().prop_filter("non-identity CTM", |c| c.ctm != IDENT).boxed(), super::c13::check),
         ],
-        min_class_fraction: vec![("fill", "src:image", 0.1), ("fill", "image:linear-parts-cancel-to-integer-translation", 0.01), ("fill", "xf:general", 0.05), ("fill", "source-with-own-transform-under-ctm", 0.05), ("fill", "xf:rotation", 0.05), ("stroke", "dashed", 0.1), ("stroke", "curved-input", 0.25), ("restore", "pop_layer", 0.3), ("rect", "translation-along-one-axis", 0.1), ("rect", "integer-rect", 0.1)],
+        min_class_fraction: vec![("fill", "src:image", 0.1), ("fill", "image:linear-parts-cancel-to-integer-translation", 0.01), ("fill", "xf:general", 0.05), ("fill", "source-with-own-transform-under-ctm", 0.05), ("fill", "xf:rotation", 0.05), ("stroke", "dashed", 0.1), ("stroke", "curved-input", 0.25), ("restore", "pop_layer", 0.3), ("restore", "transform-changed-inside-the-layer", 0.15), ("rect", "translation-along-one-axis", 0.1), ("rect", "integer-rect", 0.1)],
         panic_is_violation: false,
     }
 }
